@@ -335,8 +335,10 @@ class AWorld:
             req._gone.set_result(None)
 
     # -- websocket ---------------------------------------------------------------------------
-    def ws_open(self, query, headers=(), path='/engine.io/', scheme='ws', upgrade_hdrs=None):
+    def ws_open(self, query, headers=(), path='/engine.io/', scheme='ws', upgrade_hdrs=None,
+                fail_accept=False):
         conn = WsConn(self, query, list(headers))
+        conn.fail_accept = fail_accept
         scope = {
             'type': 'websocket', 'asgi': {'version': '3.0', 'spec_version': '2.3'},
             'http_version': '1.1', 'scheme': scheme, 'path': path,
@@ -388,6 +390,11 @@ class AWorld:
                 if self.raise_after_close:
                     raise RuntimeError("Unexpected ASGI message '%s' after close" % t)
                 return
+            if t == 'websocket.accept' and conn.fail_accept:
+                # the peer went away before the handshake response could be written
+                conn.failed = True
+                st['state'] = 'closed'
+                raise OSError('peer gone during the WebSocket handshake (scripted)')
             if t == 'websocket.accept':
                 if st['state'] != 'connecting':
                     conn.contract.append('websocket.accept in state %s' % st['state'])
